@@ -75,7 +75,9 @@ NamedPayloadProg(i) ==
      methods |-> << [RM(1, <<"h1">>, on, "tn", "none") EXCEPT !.name = "on_ok"] >>]
 
 LegacyProg(i) == [id |-> "L" \o ToString(i), family |-> "legacy",
-                  methods |-> << [RM(i, <<>>, "always", "raw", "none") EXCEPT !.name = "reply"] >>]
+                  \* L3: the reply method is not called `reply`, and a sudo handler taking a Reply is (a decoy: it must never get a reply)
+                  methods |-> << [RM(IF i = 3 THEN 1 ELSE i, <<>>, "always", "raw", "none") EXCEPT !.name = IF i = 3 THEN "on_reply" ELSE "reply"] >>,
+                  decoy |-> i = 3]
 
 CompiledProgs ==
     TLCEval(SetToSeq(
@@ -88,7 +90,7 @@ CompiledProgs ==
       \cup {DataProgMerged(i, b) : i \in {1, 3, 5}, b \in BOOLEAN}
       \cup {MixProg(i) : i \in 1..4}
       \cup {NamedPayloadProg(i) : i \in 1..3}
-      \cup {LegacyProg(i) : i \in 1..2}))
+      \cup {LegacyProg(i) : i \in 1..3}))
 
 (* ------------------------------------------------------------ the machine *)
 Progs == CompiledProgs
@@ -100,7 +102,7 @@ HandlerUniverse == HNames \cup {"on_ok", "m1", "m2", "m3"}
 Next ==
     \/ \E h \in HandlerUniverse, r \in Recvs : BuildSubMsg(h, r)
     \/ \E res \in {"ok", "err"}, c \in DataClasses : Outcome(res, c)
-    \/ \E h \in HandlerUniverse \cup {"?"}, res \in {"ok", "err"}, c \in DataClasses : Inject(h, res, c)
+    \/ \E h \in HandlerUniverse \cup {"?"}, res \in {"ok", "err"}, c \in DataClasses, py \in {"built", "empty", "garbage"} : Inject(h, res, c, py)
     \/ ReplyDispatch
 Spec == Init /\ [][Next]_rvars
 (* every reply that reaches the dispatcher is answered (checked under fairness of the dispatcher only, no constraint) *)
@@ -123,16 +125,20 @@ HandlerRow(p, h) ==
      alw  |-> IF AlwM(p, h) = 0 THEN "" ELSE p.methods[AlwM(p, h)].name]
 StimOf(p) ==
     IF Legacy(p)
-    THEN SetToSeq({[op |-> "reply", h |-> "?", recv |-> "", result |-> res, events |-> ev, class |-> c, val |-> 0] :
+    THEN SetToSeq({[op |-> "reply", h |-> "?", recv |-> "", result |-> res, events |-> ev, class |-> c, val |-> 0, pay |-> "built"] :
                       res \in {"ok", "err"}, ev \in {0, 2}, c \in {"absent", "good"}})
     ELSE
     SetToSeq(
-         {[op |-> "build", h |-> h, recv |-> r, result |-> "", events |-> 0, class |-> "", val |-> 0] : h \in AllHandlers(p), r \in Recvs}
-    \cup UNION {{[op |-> "reply", h |-> h, recv |-> "wasm", result |-> res, events |-> ev, class |-> c, val |-> IF ev = 0 THEN 0 ELSE 1] :
+         {[op |-> "build", h |-> h, recv |-> r, result |-> "", events |-> 0, class |-> "", val |-> 0, pay |-> "built"] : h \in AllHandlers(p), r \in Recvs}
+    \* replies that did not come from the builder: the right id, an empty or a garbage payload
+    \cup {[op |-> "reply", h |-> h, recv |-> "wasm", result |-> res, events |-> 0, class |-> "absent", val |-> 0, pay |-> py] :
+              \* (when the methods of a name disagree on the raw marker, which bytes decode is not specified: left out)
+              h \in {x \in AllHandlers(p) : Cardinality(PayloadSigs(p, x)) = 1}, res \in {"ok", "err"}, py \in {"empty", "garbage"}}
+    \cup UNION {{[op |-> "reply", h |-> h, recv |-> "wasm", result |-> res, events |-> ev, class |-> c, val |-> IF ev = 0 THEN 0 ELSE 1, pay |-> "built"] :
                     res \in {"ok", "err"}, ev \in {0, 2},
                     c \in IF DataMode(p, h) = "none" THEN {"absent", "good"} ELSE DataClasses} : h \in AllHandlers(p)}
-    \cup {[op |-> "reply", h |-> "?", recv |-> "", result |-> res, events |-> 0, class |-> "absent", val |-> 0] : res \in {"ok", "err"}})
-EmitProg(p) == [id |-> p.id, family |-> p.family, valid |-> ValidTable(p),
+    \cup {[op |-> "reply", h |-> "?", recv |-> "", result |-> res, events |-> 0, class |-> "absent", val |-> 0, pay |-> "built"] : res \in {"ok", "err"}})
+EmitProg(p) == [id |-> p.id, family |-> p.family, valid |-> ValidTable(p), decoy |-> (Legacy(p) /\ p.decoy),
                 methods |-> [i \in 1..Len(p.methods) |-> ElabMethodR(p.methods[i])],
                 handlers |-> SetToSeq({HandlerRow(p, h) : h \in AllHandlers(p)}),
                 stim |-> StimOf(p)]
